@@ -952,7 +952,12 @@ func runC05(c *Ctx) {
 		for _, f := range buildCallScope(fn).fns {
 			allInstrs(f, func(in ssa.Instruction) {
 				if call, ok := in.(*ssa.Call); ok && staticCallee(&call.Call) == m.siftDn {
-					switch a := call.Call.Args[1].(type) {
+					arg := call.Call.Args[1]
+					// a cursor kept one ahead of the position (for i := n; i > 0; i-- { down(i-1) }): still the loop's variable
+					if bo, ok := arg.(*ssa.BinOp); ok && (bo.Op == token.SUB || bo.Op == token.ADD) && isAnyConstInt(bo.Y) && blockInLoop(call.Block()) {
+						arg = bo.X
+					}
+					switch a := arg.(type) {
 					case *ssa.Phi:
 						has = true
 					case *ssa.Parameter:
@@ -1414,7 +1419,42 @@ func runC06(c *Ctx) {
 				return
 			}
 			ph, ok := call.Call.Args[1].(*ssa.Phi)
-			if !ok || !isNotify(in2, ph) {
+			if !ok {
+				// a cursor kept one ahead: for i := len; i > 0; { i--; report(data[i], i) }
+				if bo, isB := call.Call.Args[1].(*ssa.BinOp); isB && bo.Op == token.SUB && isConstInt(bo.Y, 1) && isNotify(in2, bo) {
+					if p1, isP := bo.X.(*ssa.Phi); isP && dominatesInstr(at, call) {
+						initLen, stepDown, guard := false, false, false
+						for i, e := range p1.Edges {
+							if p1.Block().Dominates(p1.Block().Preds[i]) {
+								if e == ssa.Value(bo) {
+									stepDown = true
+								} else if f2, ok := affOf(e, p1, nil, 0); ok && f2 == (aff{1, -1, 1}) {
+									stepDown = true
+								}
+							} else if f, ok := affLen(e, m, fn); ok && f == (aff{1, 0, 1}) {
+								initLen = true
+							} else if m.lenAliases(fn)[e] {
+								initLen = true
+							}
+						}
+						for _, r := range referrersOf(p1) {
+							if b2, ok := r.(*ssa.BinOp); ok && b2.X == ssa.Value(p1) && b2.Op == token.GTR && isConstInt(b2.Y, 0) {
+								guard = true
+							}
+						}
+						if initLen && stepDown && guard {
+							hdr := p1.Block()
+							if skip, wit := reachesWithout(P, at, false, isReturn, func(in3 ssa.Instruction) bool { return in3.Block() == hdr }); skip {
+								why = "a return is reachable after the bulk write without running the reporting loop (" + wit + "): the new occupants' positions are never reported on that path"
+								return
+							}
+							found = true
+						}
+					}
+				}
+				return
+			}
+			if !isNotify(in2, ph) {
 				return
 			}
 			if !dominatesInstr(at, call) {
@@ -1917,7 +1957,32 @@ func rulePosWriters(c *Ctx) {
 					return
 				}
 				// (b) in lruStore.Store: value is the result of access.Add
-				if call, ok := x.Value.(*ssa.Call); ok && staticCallee(&call.Call) == qAdd && isLoadOfField(call.Call.Args[0], accessF) {
+				var isAddResult func(v ssa.Value, d int) bool
+				isAddResult = func(v ssa.Value, d int) bool {
+					call, ok := v.(*ssa.Call)
+					if !ok || d > 2 {
+						return false
+					}
+					cal := staticCallee(&call.Call)
+					if cal == qAdd {
+						return isLoadOfField(call.Call.Args[0], accessF)
+					}
+					// a helper of the package that returns what Add returned, on every return
+					if cal == nil || cal.Pkg == nil || cal.Pkg != origin(fn).Pkg || cal.Signature.Results().Len() != 1 {
+						return false
+					}
+					n, all := 0, true
+					allInstrs(cal, func(in2 ssa.Instruction) {
+						if ret, ok := in2.(*ssa.Return); ok {
+							n++
+							if !isAddResult(ret.Results[0], d+1) {
+								all = false
+							}
+						}
+					})
+					return n > 0 && all
+				}
+				if isAddResult(x.Value, 0) {
 					c.ok("R-POS-WRITERS", key, x.Pos(), "stores the offset returned by Add")
 					return
 				}
@@ -1938,7 +2003,9 @@ func rulePosWriters(c *Ctx) {
 								// the offset the index holds for that key; a removal of the front deletes the key of the
 								// element that came out
 								delKey := del.Call.Args[1]
-								if cal == qRemove && len(call.Call.Args) == 2 {
+								// Remove(0) is Pop: the front leaves, whatever key it has
+								front := cal == qPop || (cal == qRemove && len(call.Call.Args) == 2 && isConstInt(call.Call.Args[1], 0))
+								if cal == qRemove && !front && len(call.Call.Args) == 2 {
 									var lk *ssa.Lookup
 									switch p := call.Call.Args[1].(type) {
 									case *ssa.Extract:
@@ -1950,7 +2017,7 @@ func rulePosWriters(c *Ctx) {
 										wrongElem = "the heap removal does not use the offset the index holds for the deleted key"
 									}
 								}
-								if cal == qPop {
+								if front {
 									var from func(v ssa.Value, d int) bool
 									from = func(v ssa.Value, d int) bool {
 										if d > 5 {
@@ -2011,8 +2078,20 @@ func rulePosWriters(c *Ctx) {
 				continue
 			}
 			allInstrs(cf, func(in ssa.Instruction) {
-				if call, ok := in.(*ssa.Call); ok && staticCallee(&call.Call) == qUpdate && isLoadOfField(call.Call.Args[0], accessF) {
-					if _, ok := call.Call.Args[1].(*ssa.MakeClosure); ok {
+				if call, ok := in.(*ssa.Call); ok && staticCallee(&call.Call) == qUpdate {
+					// on the access queue: the receiver is read from the access field, or the queue Update was
+					// called on (Update returns its receiver) is what the access field is set to
+					onAccess := isLoadOfField(call.Call.Args[0], accessF)
+					for _, v := range []ssa.Value{call, call.Call.Args[0]} {
+						for _, r := range referrersOf(v) {
+							if st, ok := r.(*ssa.Store); ok && st.Val == v {
+								if _, f := fieldVarOf(st.Addr); sameField(f, accessF) {
+									onAccess = true
+								}
+							}
+						}
+					}
+					if _, ok := call.Call.Args[1].(*ssa.MakeClosure); ok && onAccess {
 						okU = true
 					}
 				}
